@@ -37,7 +37,13 @@ ENTRY = {'coq_dir': 'C07',
          'or during the handshake: either order is accepted), connect, open a substream (also for a protocol that has exited on the other side, also '
          'unsupported by the other side, also open-and-exit-at-once), force-close, cut the link, idle expiry (keep-alive 1 s), shut the remote node '
          'down, re-connect, dial a dead node; after every step (settled: first event, then 200 ms of quiet) the new events of every observer '
-         '(application and every user protocol of both nodes) are compared with the model, at the end both applications call dial(peer). '
+         '(application and every user protocol of both nodes) are compared with the model, at the end both applications call dial(peer). BOUNCE '
+         'scenarios, one per 100 report-level cases (15 in a quick run, 300 thorough) plus four in corpus/C07: 20 times in a row "A dials B and a '
+         'user protocol of A or of B force-closes the connection the moment it is told about it" (or, seen from the other node, the remote hangs up '
+         'right after the handshake) while the application of either or both nodes is BUSY: it polls next_event() exactly once per 1-5 ms, so the '
+         'connection task is announced, runs and ends between two polls of the manager and the closed notice can be ready together with whatever '
+         'else the manager waits for; after every cycle both applications and every protocol must have seen established first, closed second, once '
+         "each (oracle seq_ok per observer + exactly one established per cycle), and the trace must equal the model's (connect, then force-close). "
          'Non-trivial: trace >= 8 numbers; distinct (case, trace) pairs.',
  'level_text': 'Proof + translation validation + skeleton tie at STATEMENT level. The select! branches, match arms, calls of the report functions / '
                'try_get_permit / protocol_codec, what is done with each result (`?`, returned, logged, dropped) and the order, are extracted from '
@@ -92,7 +98,14 @@ ENTRY = {'coq_dir': 'C07',
                'cases; such a case now goes through the reproduction guard of ./check (cfg replay_rewrites_case), and C07_LOOP_TRAP=1 makes the '
                "harness dump the loop's debug log if it happens again. Corrected false alarm of the end-to-end oracle: step 14 (connect while a "
                'protocol exits) towards a node WITHOUT any protocol left announces and closes the new connection at once; the clause `the exit of '
-               'one protocol closes nothing` looked at the exiting node only (corpus/C07/oracle_new_connection_to_node_without_protocols.case).',
+               'one protocol closes nothing` looked at the exiting node only (corpus/C07/oracle_new_connection_to_node_without_protocols.case). '
+               'Fifth seeded round (seeded/C07/e: TcpTransport::accept spawns the connection task inside accept(), so ConnectionClosed can be queued '
+               'before the accept future is polled again and the unbiased select! of TransportManager::next hands the application closed before '
+               'established in 1 poll of 4) was reported without a failing input: no scenario ended a connection right after accept() under a '
+               'sparsely polled manager except the rare one-in-four run of a connection to a node without protocols, which the reproduction guard '
+               'tends to filter. The bounce scenarios make that the rule (20 cycles per case: a changed tree fails a case with probability 1 - '
+               "(3/4)^20, and again in the guard's re-runs); on the unchanged tree the accept future completes in the poll that starts the task, so "
+               'nothing can precede established.',
  'trusted_base': ['tools/gen_conn_exits.py: regex-level extractor of the exit sites of start / handle_yamux_substream / handle_negotiated_substream '
                   '/ handle_protocol_command (blanked strings and comments, matched braces); it can mis-classify a site only towards a mismatch with '
                   'the model table (then the check fails)',
